@@ -569,6 +569,32 @@ class _RngRule:
 
 
 # ---------------------------------------------------------------------------------
+def seed_kept_as_given(ctx: Ctx):
+    repo, res = ctx.repo, ctx.res
+    n = 0
+    for ci in repo.classes.values() if hasattr(repo, "classes") else []:
+        init = ci.methods.get("__init__")
+        if init is None:
+            continue
+        seeds = [p for p in init.all_params if p in SEED_NAMES]
+        if not seeds:
+            continue
+        for p in seeds:
+            n += 1
+            problems = []
+            for c in own_scope_nodes(init.node):
+                if isinstance(c, ast.Call) and (call_name(c) or "") in ("check_random_state", "RandomState", "default_rng", "Generator") and any(isinstance(x, ast.Name) and x.id == p for a in list(c.args) + [k.value for k in c.keywords] for x in ast.walk(a)):
+                    problems.append((c, f"`{src(c)[:70]}` makes a generator from `{p}` at construction"))
+                if isinstance(c, ast.Assign) and any(isinstance(t, ast.Attribute) and is_name(t.value, init.self_name) for t in c.targets) and any(isinstance(x, ast.Name) and x.id == p for x in ast.walk(c.value)) and not is_name(c.value, p):
+                    if not any(c is q[0] or any(y is q[0] for y in ast.walk(c)) for q in problems):
+                        problems.append((c, f"`{src(c)[:70]}` stores something computed from `{p}` instead of `{p}` itself"))
+            res.instance("SEED-KEPT-AS-GIVEN", f"{ci.qname}.__init__({p})", sample={"ok": not problems})
+            for node, why in problems[:1]:
+                ctx.finding("SEED-KEPT-AS-GIVEN", init, node, f"{ci.name}.__init__: {why}. With an integer seed every fit is documented to be reproducible; a generator kept on the object is advanced by each fit (and handed out by get_params to clones), so fitting twice, or fitting a clone, with the same seed gives different results", construct=f"{ci.name}.__init__: seed {p} not kept as given")
+    if n == 0:
+        raise AnalysisError("SEED-KEPT-AS-GIVEN: no class constructor takes a seed any more; cannot decide")
+
+
 def run(ctx: Ctx):
     repo, res = ctx.repo, ctx.res
     res.rule("RNG-PROVENANCE", "in every seed-accepting function, on every branch-consistent path, each draw is made on a generator derived from the function's seed and each call that can reach a draw (under the call site's literal specialisation) forwards the seed; helpers on such a chain must accept a seed", floor=60)
@@ -579,6 +605,8 @@ def run(ctx: Ctx):
         "user callables (callback, callable SVD method) make no random draws",
         "a draw is a method call named like a RandomState sampling method on a generator-valued receiver, or tl.randn/tl.gamma",
     )
+    res.rule("SEED-KEPT-AS-GIVEN", "a constructor that takes a seed stores it as given (`self.random_state = random_state`) and makes no generator from it: a generator made at construction is shared by every later fit and by get_params / clones, so the second fit with the same integer seed draws from an advanced stream and differs from the first", floor=2)
+    ctx.guarded(seed_kept_as_given, ctx)
     rng = Rng(ctx)
     entries = [f for f in repo.iter_functions() if rng.seed_info(f) is not None]
     n_draw = n_call = 0
